@@ -521,42 +521,64 @@ func ruleR05_3(w *World, r *Report) {
 
 // sortSpec finds opt.SetSort(bson.D{{Key: K, Value: V}}) in a function and returns (K expr, V const).
 func sortSpec(u *Universe, pkg, recv, name string) (key string, val string, pos token.Pos, ok bool) {
-	fd, p := u.DeclOf(pkg, recv, name)
-	if fd == nil {
+	fd0, p := u.DeclOf(pkg, recv, name)
+	if fd0 == nil {
 		return
 	}
-	ast.Inspect(fd.Body, func(n ast.Node) bool {
-		c, isC := n.(*ast.CallExpr)
-		if !isC {
-			return true
-		}
-		sel, isS := c.Fun.(*ast.SelectorExpr)
-		if !isS || sel.Sel.Name != "SetSort" || len(c.Args) != 1 {
-			return true
-		}
-		ast.Inspect(c.Args[0], func(m ast.Node) bool {
-			kv, isKV := m.(*ast.KeyValueExpr)
-			if !isKV {
-				return true
-			}
-			if id, isID := kv.Key.(*ast.Ident); isID {
-				switch id.Name {
-				case "Key":
-					key = exprString(kv.Value)
-					if cv := constOf(p.TypesInfo, kv.Value); cv != nil {
-						key += "=" + cv.ExactString()
-					}
-				case "Value":
-					if cv := constOf(p.TypesInfo, kv.Value); cv != nil {
-						val = cv.ExactString()
+	// the sort document may be built in a new helper, or held in a local before it is handed to SetSort
+	for _, fd := range u.declWithNewHelpers(pkg, recv, name) {
+		inits := map[types.Object]ast.Expr{}
+		ast.Inspect(fd.Body, func(n ast.Node) bool {
+			if as, ok := n.(*ast.AssignStmt); ok && as.Tok == token.DEFINE && len(as.Lhs) == len(as.Rhs) {
+				for i, l := range as.Lhs {
+					if id, isID := l.(*ast.Ident); isID {
+						if obj := p.TypesInfo.Defs[id]; obj != nil {
+							inits[obj] = as.Rhs[i]
+						}
 					}
 				}
 			}
 			return true
 		})
-		pos, ok = c.Pos(), true
-		return false
-	})
+		ast.Inspect(fd.Body, func(n ast.Node) bool {
+			c, isC := n.(*ast.CallExpr)
+			if !isC {
+				return true
+			}
+			sel, isS := c.Fun.(*ast.SelectorExpr)
+			if !isS || sel.Sel.Name != "SetSort" || len(c.Args) != 1 {
+				return true
+			}
+			arg := ast.Node(c.Args[0])
+			if id, isID := c.Args[0].(*ast.Ident); isID {
+				if init, has := inits[p.TypesInfo.Uses[id]]; has {
+					arg = init
+				}
+			}
+			ast.Inspect(arg, func(m ast.Node) bool {
+				kv, isKV := m.(*ast.KeyValueExpr)
+				if !isKV {
+					return true
+				}
+				if id, isID := kv.Key.(*ast.Ident); isID {
+					switch id.Name {
+					case "Key":
+						key = exprString(kv.Value)
+						if cv := constOf(p.TypesInfo, kv.Value); cv != nil {
+							key += "=" + cv.ExactString()
+						}
+					case "Value":
+						if cv := constOf(p.TypesInfo, kv.Value); cv != nil {
+							val = cv.ExactString()
+						}
+					}
+				}
+				return true
+			})
+			pos, ok = c.Pos(), true
+			return false
+		})
+	}
 	return
 }
 
@@ -619,7 +641,12 @@ func ruleR05_4(w *World, r *Report) {
 	// filter clauses of GetOperations
 	fd, p := u.DeclOf(pMongo, "MongoCollections", "GetOperations")
 	if fd != nil {
-		clauses := filterClauses(p.TypesInfo, fd.Body)
+		clauses := map[string]string{}
+		for _, hd := range u.declWithNewHelpers(pMongo, "MongoCollections", "GetOperations") {
+			for k, v := range filterClauses(p.TypesInfo, hd.Body) {
+				clauses[k] = v
+			}
+		}
 		r.Check(clauses["AddFilterEQ:schema.OperationDocFields.DUID"] == "duid", "GetOperations/filter duid", u.Pos(fd.Pos()), "duid == parameter", fmt.Sprintf("the operation query does not filter the datatype id by the duid parameter (clauses %v)", clauses))
 		r.Check(clauses["AddFilterGTE:schema.OperationDocFields.Sseq"] == "from", "GetOperations/filter from", u.Pos(fd.Pos()), "sseq >= from", fmt.Sprintf("the operation query has no lower bound sseq >= from (clauses %v)", clauses))
 	}
